@@ -336,6 +336,7 @@ def iter_vals(interp, env, w):
 
 
 def run(ctx):
+    ctx.guard("C11.K17", "constructor fidelity", lambda: __import__("ctor").check_for(ctx, "C11", 28))
     ctx.guard("C11.R1", "signature", lambda: r1_signature(ctx))
     ctx.guard("C11.R2", "driver", lambda: r2_driver(ctx))
     ctx.guard("C11.R3", "operators", lambda: r3_operators(ctx))
